@@ -100,6 +100,18 @@ fn main() {
         let res = r.resize(&src, &mut dst, &ResizeOptions::new().resize_alg(ResizeAlg::SuperSampling(FilterType::Box, 1)));
         println!("supersampling(Box,1) 40x40(200)->10x10(7): {res:?} dst[0]={} (7 = untouched)", dst.buffer()[0]);
     }
+    if want("supersampling-zero") {
+        // SuperSampling with multiplicity 0: factor = scale / 0 = inf, the intermediate image is
+        // 0x0, nothing is resized; with alpha handling the stale destination is alpha-divided
+        let src = Image::from_vec_u8(64, 64, (0..64 * 64 * 4).map(|i| (i % 251) as u8).collect(), PixelType::U8x4).unwrap();
+        for use_alpha in [true, false] {
+            let mut dst = Image::from_vec_u8(8, 8, vec![100u8; 8 * 8 * 4], PixelType::U8x4).unwrap();
+            let mut r = Resizer::new();
+            let o = ResizeOptions::new().resize_alg(ResizeAlg::SuperSampling(FilterType::Bilinear, 0)).use_alpha(use_alpha);
+            let res = r.resize(&src, &mut dst, &o);
+            println!("supersampling(Bilinear,0) use_alpha={use_alpha}: {res:?} dst[0..4]={:?} (100,100,100,100 = stale; 255,255,255,100 = stale and alpha-divided)", &dst.buffer()[0..4]);
+        }
+    }
     if want("oversized-dst") {
         let mut pixels = vec![U8::new(9); 32];
         let src = TypedImage::<U8>::from_pixels(8, 8, vec![U8::new(100); 64]).unwrap();
